@@ -1,11 +1,22 @@
 """C17 - haplotag followed by haplotagphase reproduces the phasing that tagged the reads.
 
-Sub-check
+Sub-checks
   chain   stage 1: prepare_haplotag_information + attempt_add_phase_information (haplotag.py) tag error-free reads of a
           phased diploid table (HP = haplotype index + 1, PS = phase set id);
           stage 2: reads carrying exactly those tags (as ReadSetReader builds them: Read(HP_tag=HP, PS_tag=PS)) and the same
           table with a solver-chosen subset of the variants unphased go through run_haplotagphase (the inline vote
           bookkeeping, compute_votes, best_candidate, consensus, length_of_homopolymer) and the phased writer.
+  chain_multiallelic
+          the same chain (same harness) over tables that mix biallelic records with records that have TWO ALT alleles
+          and a solver-chosen phased heterozygous genotype 0|1, 1|0, 0|2, 2|0, 1|2 or 2|1.  This is the separate path of
+          run_haplotagphase for `mav=True` (its default): the per-position `allele_to_id` / `id_to_allele` maps built from
+          Genotype.as_vector() (DESCENDING allele order), used by compute_votes (ht ^ id of the read's allele) and by
+          consensus (id -> allele of the two super-reads), VcfReader(mav=True) and PhasedVcfWriter(mav=True).
+          `whatshap haplotag` itself opens its VCF without multi-allelic support, so the first stage sees only the
+          biallelic records (symbolic run: the records are left out as VcfReader._process_single_chromosome does for
+          mav=False; replay: the original phased VCF is written with both ALT alleles and parsed by the real VcfReader
+          with run_haplotag's arguments).  A read is therefore tagged from the biallelic variants of its phase set and
+          then votes, in stage 2, at every variant it covers, 2-ALT ones included.
 
 What is a stand-in: PhasedInputReader (BAM + allele detection) in both stages; in the symbolic run also VcfReader (the
 table is built directly), IndexedFasta (a string) and PhasedVcfWriter (a 10-line model of `write`: a variant present in
